@@ -162,9 +162,10 @@ def filter_lower_max(
     u: NDArray,
 ) -> bool:
     for i in range(1, nb + 2):
-        t[i] = i - 1
         h[i] = i - 1
         d[i] = get_sum(u, bounds[i - 1], bounds[i] - 1)
+        # an interval without capacity is full from the start: it is skipped like an interval that has been filled
+        t[i] = i + 1 if d[i] == 0 else i - 1
     for i, max_sorted_vars_i in enumerate(max_sorted_vars):
         x = ranks[max_sorted_vars_i, MIN]
         y = ranks[max_sorted_vars_i, MAX]
@@ -205,9 +206,10 @@ def filter_upper_max(
     u: NDArray,
 ) -> bool:
     for i in range(0, nb + 1):
-        t[i] = i + 1
         h[i] = i + 1
         d[i] = get_sum(u, bounds[i], bounds[i + 1] - 1)
+        # an interval without capacity is full from the start: it is skipped like an interval that has been filled
+        t[i] = i - 1 if d[i] == 0 else i + 1
     for i in range(n - 1, -1, -1):
         min_sorted_vars_i = min_sorted_vars[i]
         x = ranks[min_sorted_vars_i, MAX]
